@@ -105,12 +105,41 @@ def mc(ctx):
 # ------------------------------------------------------------------------------------------------
 # a recorder that dies
 # ------------------------------------------------------------------------------------------------
+def redrive(ctx, binname, inputs, tag):
+    """Re-drive the inputs of one session (replay mode flushes after every event).  If the recorder
+    dies, the call that never returned is appended with res = {"abort": ..}: the trace specification
+    rejects it like any other observation (a call that does not return is not an allowed answer)."""
+    inp = os.path.join(ctx.work, tag + "_in.ndjson")
+    with open(inp, "w") as f:
+        for e in inputs:
+            f.write(json.dumps(e) + "\n")
+    part = ctx.record(binname, ["--mode", "replay", "--in", inp], tag + ".ndjson", allow_fail=True)
+    evs = []
+    with open(part) as f:
+        for line in f:
+            try:
+                evs.append(json.loads(line))
+            except ValueError:
+                break
+    died = len(evs) < len(inputs)
+    if died:
+        bad = dict(inputs[len(evs)])
+        abort = {"abort": "the recorder process died inside this call (stack overflow / abort)"}
+        bad["res"] = [abort] * bad["n"] if bad["ev"] == "scan" else abort
+        evs.append(bad)
+        with open(part, "w") as f:
+            for e in evs:
+                f.write(json.dumps(e) + "\n")
+        core.log("[%s] recorder died: call #%d (%s) of the session never returned" % (ctx.prop, len(evs), bad["ev"]))
+    elif ctx.last_record_rc != 0:
+        raise core.ToolError("recorder %s failed (%d): %s" % (binname, ctx.last_record_rc, ctx.last_record_stderr[-2000:]))
+    return part, died
+
+
 def crashed_sessions(ctx, binname, paths):
     """A stack overflow or abort inside falcon kills the recorder (not catchable in-process).  The
     recorder parks the inputs of the session it is driving in `<out>.cur`; if that file is still
-    there the session is re-driven with a flush after every event, the call that never returned is
-    appended with res = {"abort": ..} and the trace specification gets to reject it like any other
-    observation (a call that does not return is not an answer the specification allows)."""
+    there after the run, that session is re-driven on its own (see redrive) and judged."""
     out = []
     for p in paths:
         if not os.path.exists(p) or (os.path.getsize(p) == 0 and not os.path.exists(p + ".cur")):
@@ -126,29 +155,9 @@ def crashed_sessions(ctx, binname, paths):
         last = max([i for i, l in enumerate(lines) if '"ev":"begin"' in l], default=0)
         with open(p, "w") as f:
             f.writelines(lines[:last])
-        tag = "crash%d" % len(out)
-        inp = os.path.join(ctx.work, tag + "_in.ndjson")
-        with open(inp, "w") as f:
-            for e in inputs:
-                f.write(json.dumps(e) + "\n")
-        part = ctx.record(binname, ["--mode", "replay", "--in", inp], tag + ".ndjson", allow_fail=True)
-        evs = []
-        with open(part) as f:
-            for line in f:
-                try:
-                    evs.append(json.loads(line))
-                except ValueError:
-                    break
-        if len(evs) >= len(inputs):
+        part, died = redrive(ctx, binname, inputs, "crash%d" % len(out))
+        if not died:
             raise core.ToolError("recorder %s died while driving a session that replays cleanly: %s" % (binname, p + ".cur"))
-        bad = dict(inputs[len(evs)])
-        abort = {"abort": "the recorder process died inside this call (stack overflow / abort)"}
-        bad["res"] = [abort] * bad["n"] if bad["ev"] == "scan" else abort
-        evs.append(bad)
-        with open(part, "w") as f:
-            for e in evs:
-                f.write(json.dumps(e) + "\n")
-        core.log("[%s] recorder died in session parked at %s: call #%d (%s) never returned" % (ctx.prop, p + ".cur", len(evs), bad["ev"]))
         out.append(part)
     return out
 
@@ -229,7 +238,10 @@ def run(ctx):
     t1 = time.time()
     q = ctx.quick
     may_die = {"allow_fail": True}          # a dying recorder is an observation: see crashed_sessions
-    jobs = [("c08", ["--mode", "gen", "--in", h], "gen%d.ndjson" % i, may_die) for i, (h, _) in enumerate(hists)]
+    # quick: each history with one value type (alternating) and one placement (rotating): every
+    # (value type, placement) pair occurs with every sixth history; thorough: both value types
+    jobs = [("c08", ["--mode", "gen", "--in", h, "--vt", "alternate" if q else "both"], "gen%d.ndjson" % i, may_die)
+            for i, (h, _) in enumerate(hists)]
     nrand, ops = (240, 120) if q else (6000, 400)
     per = 120 if q else 375
     for i in range(nrand // per):
@@ -246,9 +258,9 @@ def run(ctx):
     ctx.extra["exhaustive_scope"] = (
         "every history of Mem.tla with <= 2 operations out of store(offset 0..5, 1..4 bytes) / set_permissions(3 ranges) / "
         "clone / new%s, both endiannesses, with and without backing, each followed by all loads of 8/16/32/64 bits at "
-        "offsets 0..8, permissions at offsets 0..6 and eq of all pairs; replayed for V = il::Constant and il::Expression "
+        "offsets 0..8, permissions at offsets 0..6 and eq of all pairs; replayed for V = il::Constant %s il::Expression "
         "with the window across a page boundary at 1024 / 2^32 / 2^63 (rotating)"
-        % ("" if q else "; and every history of <= 3 stores / clones"))
+        % ("" if q else "; and every history of <= 3 stores / clones", "or (alternating)" if q else "and"))
     ctx.extra["generated_histories"] = sum(n for _, n in hists)
     ctx.extra["random_sessions"] = nrand
     ctx.extra["random_max_ops"] = ops
@@ -268,11 +280,7 @@ def replay(ctx, path):
         rep = json.load(f)
     rj = rep["rejection"]
     sess = rj.get("session") or [rj["event"]]
-    inp = os.path.join(ctx.work, "replay_in.ndjson")
-    with open(inp, "w") as f:
-        for e in sess:
-            f.write(json.dumps(e) + "\n")
-    out = ctx.record("c08", ["--mode", "replay", "--in", inp], "replay.ndjson")
+    out, _ = redrive(ctx, "c08", sess, "replay")
     r = ctx.tlc_trace(TRACE, out, env=TLC_ENV)
     _attach_sessions(ctx, [r])
     ctx.traces += 1
